@@ -133,7 +133,7 @@ int main(int argc, char** argv){
         unsigned long ord = 0;
         for(long ns : counts) for(long nt : counts) for(double sep : seps) for(int fam = 0 ; fam < 3 ; ++fam){
             if((ord++) % args.nbSlices != args.slice) continue;
-            if(rep.timeUp()){ rep.exhaustive = false; return; }
+            if(rep.timeUp()){ rep.cut(); return; }
             evalCase<double>(ns, nt, sep, fam, rep, pg, "double");
             evalCase<float>(ns, nt, sep, fam, rep, pg, "float");
             pg.publish(rep);
